@@ -197,6 +197,10 @@ class Checker:
 
         root = Path(path)
         if root.name == self.name:
+            inner = root / self.name
+            if (root.is_dir() and inner.exists()
+                    and self._is_parent(root, inner)):
+                return inner
             self.log_msg("Content found: %s.", str(root))
             return root
 
@@ -205,6 +209,36 @@ class Checker:
 
         self.log_msg("Could not locate torrent content in: %s", str(root))
         raise FileNotFoundError(root)
+
+    def _is_parent(self, outer: Path, inner: Path) -> bool:
+        """
+        Tell the content from its parent when both carry the torrent's name.
+
+        Parameters
+        ----------
+        outer : Path
+            directory named like the torrent
+        inner : Path
+            entry of outer that is also named like the torrent
+
+        Returns
+        -------
+        bool
+            True if inner is the torrent content and outer only its parent
+        """
+        info = self.info
+        if "files" in info:
+            tops = {item["path"][0] for item in info["files"] if item["path"]}
+        else:
+            tree = info.get("file tree", {})
+            if "length" in info or (list(tree) == [self.name]
+                                    and "" in tree[self.name]):
+                # the content of a single file torrent is a file
+                return inner.is_file()
+            tops = set(tree)
+        in_outer = sum(os.path.exists(outer / top) for top in tops)
+        in_inner = sum(os.path.exists(inner / top) for top in tops)
+        return in_inner > in_outer
 
     def check_paths(self):
         """
